@@ -341,6 +341,91 @@ theorem C04_fn_with_times_exact (st : St) (k t : Nat) (s : Sig.Sig) (a b c d e :
     simp only [directValues]
     rw [directWindows_bufs _ _ _ _ bufs' (readF st.heap s).bufs _ hlen]
 
+/-! ## the inputs the real code rejects: error branches of the model
+
+The theorems above carry hypotheses (`values` defined, non-empty grids, `q ≠ 0`).  At the excluded
+points the real code raises; the model rejects in the same way and leaves the state unchanged (the
+correspondence run compares the exception class).  Strictly increasing grids in the `interp0`
+theorems are a restriction the property text itself makes ("between samples", "outside the original
+span" presuppose ordered sample times); what the real code does on other grids is recorded as an
+observation outside the claim in `harness/props/C04.py`. -/
+
+/-- re-gridding a sampled signal that has NO samples onto a non-empty grid raises (`np.interp`:
+"array of sample points is empty"); nothing is allocated -/
+theorem C04_with_times_no_samples_raises (st : St) (k t v : Nat) (s : Sig.Sig) (x : Rat) (xs : Arr)
+    (hs : st.objs k = some s) (hb : s.body = .arr v) (he : s.isEmpty = false) (ht : t ∈ st.exts)
+    (h0 : st.heap.cell s.times = []) (h1 : st.heap.cell t = x :: xs) :
+    step st (.withTimes k t) = (st, .raise) := by
+  simp [step, hs, ht, withTimesSig, hb, he, h0, h1]
+
+/-- `FunctionSignal.with_times` with an empty new grid, or on a signal without samples, raises
+(`IndexError` on `new_times[0]` / `self.times[0]`) -/
+theorem C04_fn_with_times_empty_raises (st : St) (k t : Nat) (s : Sig.Sig) (a b c d e : Nat) (bi fi : List Nat)
+    (hs : st.objs k = some s) (hb : s.body = .fn a b c d e bi fi) (ht : t ∈ st.exts)
+    (h : st.heap.cell t = [] ∨ st.heap.cell s.times = []) :
+    step st (.withTimes k t) = (st, .raise) := by
+  have hts : (readF st.heap s).ts = st.heap.cell s.times := by simp [readF, hb]
+  simp only [step, hs, ht, if_true, withTimesSig, hb]
+  rcases h with h | h
+  · rw [h]
+  · rw [hts, h]; cases st.heap.cell t <;> rfl
+
+/-- adding a sampled signal and a function-backed one whose `values` cannot be evaluated (fewer
+than two samples: `dt is None`, known finding K15; `dt = 0`) is refused with nothing allocated -/
+theorem C04_add_undefined_values_refused (st : St) (i j : Nat) (a b : Sig.Sig) (vt : VT)
+    (hi : st.objs i = some a) (hj : st.objs j = some b) (haf : a.isFunc = false) (hae : a.isEmpty = false)
+    (ht : st.heap.cell a.times = st.heap.cell b.times) (hvt : coerce a.vt b.vt = some vt)
+    (hvb : valuesOf st.heap b = none) :
+    step st (.add (.obj i) (.obj j)) = (st, .typeError) := by
+  rw [C04_add_dispatch st i j a b hi hj]
+  have hne : ¬ (st.heap.cell a.times ≠ st.heap.cell b.times) := by simp [ht]
+  unfold addSig
+  simp only [if_neg hne, hvt, haf, hae, Bool.false_eq_true, if_false, hvb]
+  cases valuesOf st.heap a <;> rfl
+
+/-- a function-backed signal whose grid has fewer than two samples, or two equal first samples,
+has no `values` (the real code raises `TypeError` resp. `ValueError`) -/
+theorem C04_fn_values_undefined (d : FData) (h : d.ts.length < 2 ∨ ∃ x r, d.ts = x :: x :: r ∧ d.fns ≠ [] ∧
+    d.t0s ≠ [] ∧ d.facs ≠ [] ∧ d.bufs ≠ [] ∧ d.filts ≠ []) : fnValues d = none := by
+  obtain ⟨ts, fns, t0s, facs, bufs, filts⟩ := d
+  rcases h with h | ⟨x, r, h, h1, h2, h3, h4, h5⟩
+  · cases ts with
+    | nil => rfl
+    | cons a ts => cases ts with
+      | nil => rfl
+      | cons b ts => simp at h; omega
+  · simp only at h h1 h2 h3 h4 h5
+    subst h
+    cases fns with
+    | nil => exact absurd rfl h1
+    | cons f fns =>
+    cases t0s with
+    | nil => exact absurd rfl h2
+    | cons t0 t0s =>
+    cases facs with
+    | nil => exact absurd rfl h3
+    | cons fc facs =>
+    cases bufs with
+    | nil => exact absurd rfl h4
+    | cons bf bufs =>
+    cases filts with
+    | nil => exact absurd rfl h5
+    | cons fl filts =>
+      have : compVals (x :: x :: r) f t0 fc bf fl = none := by
+        simp [compVals, Rat.sub_self]
+      simp [fnValues, compWindows, this]
+
+/-- dividing a function-backed signal by zero raises (`ZeroDivisionError` on its factors) and changes
+nothing; for a sampled signal numpy yields inf/nan, which lies outside the rational model -/
+theorem C04_div_zero_function_raises (st : St) (k : Nat) (s : Sig.Sig) (hs : st.objs k = some s)
+    (hf : s.isFunc = true) :
+    step st (.div k 0) = (st, .raise) ∧ step st (.idiv k 0) = (st, .raise) := by
+  simp [step, hs, hf]
+
+/-- a DECREASING grid is not an excluded input for function-backed signals: they are evaluated on it -/
+theorem C04_fn_values_decreasing_grid :
+    fnValues ⟨[2, 1, 0], [3], [0], [1], [[0, 0]], [[]]⟩ = some [5, 3, 1] := by decide +kernel
+
 /-! ## filtering a function-backed signal (mixed histories: filtered function signals + sampled ones) -/
 
 /-- `FunctionSignal.filter_frequencies` works in place on the inner filter lists only: same object,
